@@ -21,8 +21,12 @@
   Model comparison (`diff`): `fastCovering`/`startCells` for every kind (they depend on the bound
   only); `covering`, `interiorCovering`, `cellUnion`, `interiorCellUnion` for kinds cell / cu / cub.
 
-  op `pred`  pred <kind> <params> <cellid> <samples> = <ContainsCell> <IntersectsCell>
-     propfail containsCell-unsound / intersectsCell-unsound.
+  op `pred`  pred <kind> <params> <cellid> <samples> = <ContainsCell> <IntersectsCell> [<flags>]
+     propfail containsCell-unsound / intersectsCell-unsound.  kind rect: third result token `flags` = one T/F per sample,
+     `Rect.ContainsPoint(sample)`; the judge is then Go-vs-Go consistency (not exact).
+  Known class (finding F-A): region kind rect and offending point with |z| ≥ float64(1 − 1e-9) → the clause gets the
+  suffix `-polar-rect` (`covering-misses-point-polar-rect`, `intersectsCell-unsound-polar-rect`, …).
+  A result token `HANG` (harness watchdog) → `propfail hang`.
 
   Point-in-cell is decided exactly: a cell is the closed (u,v) rectangle whose bounds are the
   floats of `Cell.BoundUV()` (soft-float `stToUV(ijToSTMin(·))`), a point is compared with them in
@@ -325,14 +329,32 @@ def cellInRegion (r : Reg) : Option (CellID → Bool) :=
     else none
   | _ => none
 
-def judgeMiss (which : String) (pts : List LPt) (o : Option CU) : Option String :=
+/-- `float64(1 − 1e-9)`: a point with |z| at or above it is within ≈ 4.5e-5 rad of a pole.
+    (Measured reach of finding F-A: coverings miss points up to 1.0e-5 rad from a pole, `IntersectsCell` is wrong for
+    cells holding rectangle points up to 2.7e-5 rad; 1 − 1e-12 ≈ 1.4e-6 rad was too narrow.) -/
+def polarZ : F64 := ⟨0x3fefffffff768fa1⟩
+
+def isPolarPt (p : V3) : Bool := F64.ge p.z.abs polarZ
+
+/-- the known class "lat-lng rectangle next to a pole" (finding F-A, `Rect.IntersectsCell`) gets its own clause -/
+def polarSuffix (r : Reg) (p : V3) : String :=
+  match r with
+  | .rect => if isPolarPt p then "-polar-rect" else ""
+  | _ => ""
+
+def judgeMiss (which : String) (r : Reg) (pts : List LPt) (o : Option CU) : Option String :=
   match o with
   | none => none
   | some cu =>
     let a := cu.toArray
     let rs := a.map fun c => (rangeMin c, rangeMax c)
     let boxes : Thunk (Array Box) := Thunk.mk fun _ => a.map boxOf
-    if pts.all (cellsCoverPoint a boxes rs) then none else some which
+    let missed := pts.filter fun q => !cellsCoverPoint a boxes rs q
+    -- a miss outside the polar class decides the clause
+    match missed.find? (fun q => polarSuffix r q.p == ""), missed.head? with
+    | some _, _ => some which
+    | none, some q => some (which ++ polarSuffix r q.p)
+    | none, none => none
 
 /-- at most `n` evenly spread elements -/
 def spread (n : Nat) (l : List α) : List α :=
@@ -397,17 +419,19 @@ def handleCov (kind params : String) (sMin sMax sMod sCells ops sPts : String) (
         fun _ => judgeDenorm cfg "fastcovering" fast,
         fun _ => judgeUnion cfg "cellunion" cu,
         fun _ => judgeUnion cfg "interiorcellunion" icu,
-        fun _ => judgeMiss "covering-misses-point" cpts cov,
-        fun _ => judgeMiss "cellunion-misses-point" cpts cu,
-        fun _ => judgeMiss "fastcovering-misses-point" cpts fast,
+        fun _ => judgeMiss "covering-misses-point" reg cpts cov,
+        fun _ => judgeMiss "cellunion-misses-point" reg cpts cu,
+        fun _ => judgeMiss "fastcovering-misses-point" reg cpts fast,
         fun _ => judgeInterior "interior-cell-not-contained" inReg [] icov,
         fun _ => judgeInterior "interiorunion-cell-not-contained" inReg (icov.getD []) icu]
       pure (verdictP model res prop)
     | _, _, _, _, _, _, _ =>
       if res.any (fun t => t.startsWith "PANIC") then pure ("propfail panic " ++ " ".intercalate res)
+      else if res.any (· == "HANG") then pure "propfail hang"
       else pure "bad cov-result-tokens"
   | _ =>
     if res.any (fun t => t.startsWith "PANIC") then pure ("propfail panic " ++ " ".intercalate res)
+    else if res.any (· == "HANG") then pure "propfail hang"
     else pure "bad cov-result-arity"
 
 /-! ### pred -/
@@ -430,11 +454,41 @@ def predTests (r : Reg) (ulp : Bool) : Option ((V3 → Bool) × (V3 → Bool)) :
     if conv then (let es := loopEdges vs; some (inLoopSlack es, inLoopStrict es)) else none
   | _ => none
 
+/-- rect: Go-vs-Go consistency.  `flags` = `Rect.ContainsPoint(sample)` per sample, computed by the harness.
+    ContainsCell=T ⇒ every kept sample is accepted; IntersectsCell=F ⇒ no kept sample is accepted. -/
+def judgeRectPred (cT iT : Bool) (kept : List (V3 × Bool)) : Option String :=
+  let clause (name : String) (bad : List (V3 × Bool)) : Option String :=
+    match bad.find? (fun s => !isPolarPt s.1), bad.head? with
+    | some _, _ => some name
+    | none, some _ => some (name ++ "-polar-rect")
+    | none, none => none
+  let c := if cT then clause "containsCell-unsound" (kept.filter fun s => !s.2) else none
+  match c with
+  | some x => some x
+  | none =>
+    let i := if !iT then clause "intersectsCell-unsound" (kept.filter fun s => s.2) else none
+    match i with
+    | some x => some x
+    | none => if cT && !iT then some "contains-without-intersects" else none
+
 def handlePred (ulp : Bool) (kind params sCell sSamples : String) (res : List String) : Option String := do
   let reg ← (parseReg? kind params).map Reg.prepare
   let id ← parseU64? sCell
   let samples ← parsePts? sSamples
   match res with
+  | [c, i, flags] =>
+    match parseBool? c, parseBool? i, flags.toList.mapM (fun ch => parseBool? (String.singleton ch)) with
+    | some cT, some iT, some fl =>
+      if !isValid id then pure "bad pred-invalid-cell"
+      else if fl.length != samples.length then pure "bad pred-flags-length"
+      else
+        let bx := boxOf id
+        let kept := (samples.zip fl).filter fun s => finite3 s.1 && bx.containsClosed (ofV3 s.1)
+        let prop := match reg with
+          | .rect => judgeRectPred cT iT kept
+          | _ => none
+        pure (verdictP res res prop)
+    | _, _, _ => pure "bad pred-result-tokens"
   | [c, i] =>
     match parseBool? c, parseBool? i with
     | some cT, some iT =>
@@ -460,6 +514,7 @@ def handlePred (ulp : Bool) (kind params sCell sSamples : String) (res : List St
       else pure "bad pred-result-tokens"
   | _ =>
     if res.any (fun t => t.startsWith "PANIC") then pure ("propfail panic " ++ " ".intercalate res)
+    else if res.any (· == "HANG") then pure "propfail hang"
     else pure "bad pred-result-arity"
 
 def handle (op : String) (args res : List String) : Option String :=
